@@ -35,6 +35,8 @@ pub struct Line {
     pub gd: Vec<f64>,             // omega per id
     pub cum: Vec<Vec<Option<f64>>>, // per id: cumulative sums (None = OVF)
     pub cum_exact: Vec<Vec<(i64, i64)>>,
+    pub j_exact: Vec<(i64, i64)>,
+    pub w_units: Vec<i64>,
     pub itr: Option<f64>,
 }
 
@@ -75,6 +77,8 @@ impl Line {
                 .map(|c| arr(c).iter().map(|r| { let (a, b) = (as_i64(&r[0]), as_i64(&r[1])); if b == 0 { None } else { Some(a as f64 / b as f64) } }).collect())
                 .collect(),
             cum_exact: arr(&v["cum"]).iter().map(|c| arr(c).iter().map(|r| (as_i64(&r[0]), as_i64(&r[1]))).collect()).collect(),
+            j_exact: jt.iter().map(|r| (as_i64(&r[0]), as_i64(&r[1]))).collect(),
+            w_units: arr(&v["w"]).iter().map(as_i64).collect(),
             itr: if jd != 0 { Some(jn as f64 / jd as f64) } else { None },
             g,
         }
@@ -507,6 +511,13 @@ fn boundary_checks(cx: &mut Ctx, s: &dyn DynSampler, rng: &mut impl Rng, max_sub
         let cum = &line.cum[target];
         if cum.iter().any(|c| c.is_none()) { cx.sm.count("boundary_skipped_ovf"); continue; }
         let cumv: Vec<f64> = cum.iter().map(|c| c.unwrap()).collect();
+        // exactness scope: J(g), every J(g\e) and every omega(g\e) are powers of two, so each probability and each
+        // running sum is computed without rounding and "the running sum reaches u" is decidable at u = boundary
+        let pow2 = |n: i64| n > 0 && (n as u64).is_power_of_two();
+        let wd = line.g.wd;
+        let exact_scope = pow2(wd) && pow2(line.j_exact[target].0) && pow2(line.j_exact[target].1)
+            && members.iter().all(|&b| { let sub = target ^ (1 << b); pow2(line.j_exact[sub].0) && pow2(line.j_exact[sub].1) && pow2(line.w_units[sub]) });
+        if exact_scope { cx.sm.count("boundary_exact_scopes"); }
         // candidate coordinates: (u, set of acceptable positions)
         let mut cands: Vec<(f64, Vec<usize>, &'static str)> = vec![];
         let n = members.len();
@@ -517,7 +528,7 @@ fn boundary_checks(cx: &mut Ctx, s: &dyn DynSampler, rng: &mut impl Rng, max_sub
             let b = cumv[k];
             cands.push((b * (1.0 - 1e-6), vec![k], "below"));
             cands.push((b * (1.0 + 1e-6), vec![k + 1], "above"));
-            cands.push((b, vec![k, k + 1], "at"));
+            cands.push((b, if exact_scope { vec![k] } else { vec![k, k + 1] }, if exact_scope { "at_exact" } else { "at" }));
             cands.push((f64::from_bits(b.to_bits() - 1), vec![k, k + 1], "pred"));
             cands.push((f64::from_bits(b.to_bits() + 1), vec![k, k + 1], "succ"));
             let lo = if k == 0 { 0.0 } else { cumv[k - 1] };
